@@ -281,6 +281,24 @@ pub fn replay(cases_path: &str, out_path: &str, labels_path: &str) {
         let mut prev: Option<Engine> = None;
         for (i, case) in cases.iter().enumerate().filter(|(i, _)| i % stride == 0) {
             let bytes = voicegen::render(&case["voice"]);
+            // every other time the path first holds a variant of the SAME LENGTH (first digit of the sampling frequency changed, lowest
+            // mantissa bit of the first duration mean flipped), which is loaded and then replaced by the real file: size alone says nothing
+            if (i / stride) % 2 == 1 {
+                let mut variant = bytes.clone();
+                let key = b"SAMPLING_FREQUENCY:";
+                if let Some(at) = variant.windows(key.len()).position(|w| w == key) {
+                    let d = &mut variant[at + key.len()];
+                    *d = if *d == b'9' { b'8' } else { b'9' };
+                }
+                let tag = b"[DATA]\n";
+                if let Some(at) = variant.windows(tag.len()).position(|w| w == tag) {
+                    if at + tag.len() + 4 < variant.len() {
+                        variant[at + tag.len() + 4] ^= 1;
+                    }
+                }
+                let vpath = voicegen::scratch(&variant, "c04_reload");
+                let _ = guarded(|| Engine::load(&[&vpath]).map(|e| e.condition.get_sampling_frequency()).ok());
+            }
             let path = voicegen::scratch(&bytes, "c04_reload");
             let r = guarded(|| -> Result<Engine, (String, String)> {
                 let engine = Engine::load(&[&path]).map_err(|e| ("reload:error".to_string(), format!("Engine::load failed on a rewritten path: {}", e)))?;
